@@ -640,7 +640,7 @@ def clip3(x, lo, hi):
 
 
 def _resize_contract(with_sizes):
-    up = "chrom_sizes(self.data.chromosome[k])" if with_sizes else "None"
+    up = "(None if chrom_sizes is None else chrom_sizes(self.data.chromosome[k]))" if with_sizes else "None"
     ns, ne = _NS.replace("UP", up), _NE.replace("UP", up)
     return [
         ("rows_are_resized_inputs", ("forall(0, len(result.data), lambda j: let(lambda k: 0 <= k and k < len(self.data) and "
@@ -656,12 +656,15 @@ def _resize_contract(with_sizes):
 
 contract(
     "skgenome/gary.py::GenomicArray.resize_ranges",
-    params=dict(self=_GA, bp=Int, chrom_sizes=Lit(None)),
+    params=dict(self=_GA, bp=Int, chrom_sizes=Opt(FuncT("chrom_size_of", args=(CHROM,), ret=Int))),
     returns=ObjT("GenomicArray", data=TabT(index="masked", chromosome=CHROM, start=Int, end=Int, gene=GENE), meta=DictT()),
-    requires=[],
-    ensures=_resize_contract(False),
+    requires=["chrom_sizes is None or forall(0, len(self.data), lambda k: chrom_sizes(self.data.chromosome[k]) >= 0)"],
+    ensures=_resize_contract(True),
+    notes="chrom_sizes (a dict in the real call) is modelled as a total function from chromosome names to sizes: a name "
+          "missing from the dict is outside the model",
     props=("C06", "C12"), domain="skip",
-    canaries=[("no_lower_clip", 'limits = {"lower": 0}', 'limits = {"lower": -1000000000}'),
+    canaries=[("no_upper_clip", 'limits["upper"] = self.chromosome.map(chrom_sizes)', 'pass'),
+              ("no_lower_clip", 'limits = {"lower": 0}', 'limits = {"lower": -1000000000}'),
               ("end_not_moved", '(table["end"] + bp)', '(table["end"])'),
               ("keep_empty", '> 0', '>= 0'),
               ("shrink_wrong_sign", '(table["start"] - bp)', '(table["start"] + bp)')],
